@@ -1243,3 +1243,7 @@ class Network:
 
         self._log_connections_task.cancel()
         self._upnp_task.cancel()
+        # Disconnecting the network is requested: the server connection is
+        # possibly already closed, in which case the watchdog would not be
+        # cancelled by the state change of that connection
+        self._connection_watchdog_task.cancel()
